@@ -30,7 +30,7 @@ func init() {
 		Tech:        "static analysis: struct tags and constants from go/types, constant-folded format strings, slice-shape agreement of writer and reader on SSA, struct-to-struct field mapping",
 		NeedU1:      true,
 		NeedU2:      true,
-		Rules:       []func(*Ctx){ruleC18Tags, ruleC18GCMLayout, ruleC18KeyIDs, ruleC18KeyIDOperands, ruleC01ProvenanceEncrypt, ruleC01NoExtraGateOnRead, ruleC13FieldFidelity, ruleC13RecordLiteralsComplete, ruleC13KeyFidelity, ruleC18IDsAreDataNotPatterns, ruleC18ProtoMapping},
+		Rules:       []func(*Ctx){ruleC18Tags, ruleC18GCMLayout, ruleC18KeyIDs, ruleC18KeyIDOperands, ruleC01ProvenanceEncrypt, ruleC01NoExtraGateOnRead, ruleC13FieldFidelity, ruleC13RecordLiteralsComplete, ruleC13KeyFidelity, ruleC18IDsAreDataNotPatterns, ruleC18WrappersKeepOptionalInterfaces, ruleC18ProtoMapping},
 	})
 }
 
@@ -542,6 +542,19 @@ func ruleC18ProtoMapping(c *Ctx) {
 			chk(pkm["KeyId"], "P:drr.Key.ParentKeyMeta.ID", "ParentKeyMeta.KeyId")
 		}
 		c.check(len(problems) == 0, "server.toProtobufDRR", u.pos(to.Pos()), "every field from its namesake", strings.Join(problems, "; "))
+		// and it is the only place where a wire DataRowRecord is put together: another literal (e.g. a method that reuses
+		// parts of the previous record) is a second, unchecked mapping
+		for _, g := range u.RepoFuncs {
+			root := rootFunc(g)
+			if root.Pkg == nil || root.Pkg.Pkg.Path() != pkgServer || g == to || g.Blocks == nil {
+				continue
+			}
+			allInstrs(g, func(i ssa.Instruction) {
+				if a, ok := i.(*ssa.Alloc); ok && a.Comment == "complit" && (typeIsNamed(a.Type(), pkgAPI, "DataRowRecord") || typeIsNamed(a.Type(), pkgAPI, "EnvelopeKeyRecord") || typeIsNamed(a.Type(), pkgAPI, "KeyMeta")) {
+					c.bad("server/"+g.Name()+"/wire-record-literal", u.ipos(i), "a wire "+namedTypeName(a.Type())+" is assembled outside toProtobufDRR (in "+g.Name()+"): a second mapping whose fields need not come from the record being answered — e.g. parent key metadata remembered from an earlier record, which names the wrong key after a rotation, so the record handed to the client can never be decrypted")
+				}
+			})
+		}
 	}
 	// fromProtobufDRR: values are getter chains
 	{
